@@ -59,6 +59,19 @@ class NestedTransdimensional(BaseProposal):
         self._index = self.model_proposal.parameters[0]
         self.set_jump_interval(1)
 
+    @BaseProposal.bit_generator.setter
+    def bit_generator(self, bit_generator):
+        """Sets the random bit generator, and has the model proposal, the
+        proposals and their birth distributions use the same one.
+        """
+        BaseProposal.bit_generator.fset(self, bit_generator)
+        if getattr(self, '_model_proposal', None) is not None:
+            self._model_proposal.bit_generator = self.bit_generator
+        for prop in getattr(self, '_proposals', []):
+            prop.bit_generator = self.bit_generator
+            if getattr(prop, 'birth_distribution', None) is not None:
+                prop.birth_distribution.bit_generator = self.bit_generator
+
     @property
     def proposals(self):
         return self._proposals
